@@ -46,16 +46,28 @@ REQUIRED_REACH = [
     "probe:probe_itself_fails",
     "probe:fresh_interpreter_probe",
     "probe:history_other_rom_type",
+    "probe:history_used_probe_path",
 ]
 
-POOL_TABLE = "58=x\n59=y\n5A=z\n5B5C=w\n"
+POOL_TABLE = "58=x\n59=y\n5A=z\n5B5C=w\n7100=A\n72=B\n"
 PROBE_TABLE = "41=A\n42=B\n43=C\n44=D\n"
+
+
+TEXT_POOL = ["AB", "ABC", "A", "xyzw", "ABxyzwCD", "BA"]
 
 
 def pool_prelude(rng: random.Random, prefix: str) -> list[progen.Node]:
     """Definitions of the shared name pool (only ever made by history programs)."""
     nodes: list[progen.Node] = []
-    picks = [x for x in ("macro", "assign", "eq", "label", "scope", "table", "macro2") if rng.random() < 0.6]
+    picks = [x for x in ("macro", "assign", "eq", "label", "scope", "table", "macro2", "param", "codeblock", "forvar") if rng.random() < 0.55]
+    if "param" in picks:
+        nodes.append(progen.block(".macro pool_pm(pool_param) {", [progen.stmt(".db pool_param")], "macro_def"))
+        nodes.append(progen.stmt("pool_pm(4)"))
+    if "codeblock" in picks:
+        nodes.append(progen.block(".macro pool_cb(pool_blk) {", [progen.stmt("{{ pool_blk }}"), progen.stmt("nop")], "macro_def"))
+        nodes.append(progen.stmt("pool_cb({\n    inx\n    iny\n})"))
+    if "forvar" in picks:
+        nodes.append(progen.block(".for pool_i := 0, 2 {", [progen.stmt(".db pool_i")], "for"))
     if "macro" in picks:
         nodes.append(progen.block(".macro pool_m(a) {", [progen.stmt(".db a, 0x11")], "macro_def"))
         nodes.append(progen.stmt("pool_m(3)"))
@@ -72,6 +84,7 @@ def pool_prelude(rng: random.Random, prefix: str) -> list[progen.Node]:
     if "table" in picks:
         nodes.append(progen.stmt(f".table '{prefix}pool.tbl'"))
         nodes.append(progen.stmt(".text 'xyzw'"))
+        nodes.append(progen.stmt(f".text '{rng.choice(TEXT_POOL)}'"))
     return nodes
 
 
@@ -84,6 +97,12 @@ NEGATIVE_FORMS = [
     ("label_data", ".dl pool_l"),
     ("scope", ".dl pool_s.pool_sl"),
     ("text_no_table", ".text 'xy'"),
+    ("param", ".db pool_param"),
+    ("codeblock_lookup", "{{ pool_blk }}"),
+    ("codeblock_name_as_const", "pool_blk = 5\n.db pool_blk"),
+    ("forvar", ".db pool_i"),
+    ("cli_define", ".db DEF0"),
+    ("incbin_label", ".dw shared_bin__size"),
 ]
 
 
@@ -112,7 +131,7 @@ def gen_history_program(rng: random.Random, idx: int) -> dict[str, Any]:
     shared = None
     if rng.random() < 0.4:
         shared = rng.choice(["shared.s", "shared.bin", "shared.tbl"])
-        text = {"shared.s": ".include 'shared.s'", "shared.bin": ".incbin 'shared.bin'", "shared.tbl": ".table 'shared.tbl'\n.text 'AB'"}[shared]
+        text = {"shared.s": ".include 'shared.s'", "shared.bin": ".incbin 'shared.bin'", "shared.tbl": f".table 'shared.tbl'\n.text '{rng.choice(TEXT_POOL[:3] + TEXT_POOL[5:])}'"}[shared]
         prog.root.append({"k": "stmt", "t": text})
     return {"prog": prog.to_record(), "pool": bool(pool), "shared": shared, "prefix": prefix}
 
@@ -140,12 +159,13 @@ def gen_probe(rng: random.Random) -> dict[str, Any]:
         prog.files["p_own.tbl"] = PROBE_TABLE.encode()
         prog.roles["p_own.tbl"] = "table"
         extra.append(progen.stmt(".table 'p_own.tbl'"))
+        extra.append(progen.stmt(f".text '{rng.choice(TEXT_POOL)}'"))
         extra.append(progen.stmt(".text 'ABxyzwCD'"))
         negatives.append("table_chars")
     shared = None
     if rng.random() < 0.4:
         shared = rng.choice(["shared.s", "shared.bin", "shared.tbl"])
-        text = {"shared.s": ".include 'shared.s'", "shared.bin": ".incbin 'shared.bin'", "shared.tbl": ".table 'shared.tbl'\n.text 'ABC'"}[shared]
+        text = {"shared.s": ".include 'shared.s'", "shared.bin": ".incbin 'shared.bin'", "shared.tbl": f".table 'shared.tbl'\n.text '{rng.choice(TEXT_POOL[:3] + TEXT_POOL[5:])}'"}[shared]
         extra.append({"k": "stmt", "t": text})
     # place the extras before the trailing label table (keeps them in the last code section)
     pos = len(prog.root)
@@ -194,7 +214,8 @@ def gen_case(cseed: int, tier: str) -> dict[str, Any]:
     w = core.substream(cseed, "workload")
     f = core.substream(cseed, "faults")
     n_ops = h.choice([1, 1, 2, 2, 3, 3, 4, 5, 6, 8, 12])
-    enabled = {k for k in ("valid", "map", "pool", "fail", "iocrash", "wcrash", "rewrite") if h.random() < 0.6} | {"valid"}
+    enabled = {k for k in ("valid", "map", "pool", "fail", "iocrash", "wcrash", "rewrite", "same_path") if h.random() < 0.6} | {"valid"}
+    same_path_ops: list[int] = []
     ops: list[dict[str, Any]] = []
     files: dict[str, bytes] = {k: v[0] for k, v in SHARED_V.items()}
     roles: dict[str, str] = {"shared.s": "include", "shared.bin": "incbin", "shared.tbl": "table"}
@@ -235,6 +256,10 @@ def gen_case(cseed: int, tier: str) -> dict[str, Any]:
             entry = h.choice(["string", "with_emitter"])
             writer_fail = f.choice([0, 0, 1, 2])
         src = f"h{i}.s"
+        if kind == "same_path":
+            # another program stored under the probe's own path, assembled, then replaced by the probe
+            src = "probe.s"
+            same_path_ops.append(len(ops))
         spec = spec_for(entry, src, f"h{i}_", prog.mapping, [list(d) for d in prog.defines], h)
         if writer_fail is not None:
             spec["writer_fail_at"] = writer_fail
@@ -242,10 +267,13 @@ def gen_case(cseed: int, tier: str) -> dict[str, Any]:
             prog = progen.insert_at(prog, insert["slot"], error_node(insert["class"], prog))
         pf = prog.all_files()
         pr = prog.all_roles()
-        pf[src] = pf.pop("main.s")
-        pr[src] = pr.pop("main.s")
-        for k in list(pr):
-            pass
+        main_bytes = pf.pop("main.s")
+        pr.pop("main.s")
+        roles[src] = "source"
+        if kind == "same_path":
+            ops.append({"op": "write_file", "path": "probe.s", "data": main_bytes, "kind": "same_path_write"})
+        else:
+            pf[src] = main_bytes
         files.update(pf)
         roles.update(pr)
         if spec.get("out"):
@@ -268,6 +296,9 @@ def gen_case(cseed: int, tier: str) -> dict[str, Any]:
     pr["probe.s"] = pr.pop("main.s")
     files.update(pf)
     roles.update(pr)
+    if same_path_ops:
+        # restore the probe's own text at its path before the probe runs
+        ops.append({"op": "write_file", "path": "probe.s", "data": pf["probe.s"], "kind": "same_path_restore"})
     pspec = spec_for(probe["entry"], "probe.s", "probe_", pprog.mapping, [], w, probe["rom_default"])
     if pspec.get("out"):
         roles[pspec["out"]] = "out_ips" if pspec["out"].endswith(".ips") else "out_sfc"
@@ -362,7 +393,7 @@ def run_case(case: dict[str, Any], stats: Stats) -> list[Violation]:
     crash_kinds = []
     for op, o in zip(ops, after):
         if op["op"] != "exec":
-            stats.bump("probe:history_rewrote_shared_file")
+            stats.bump("probe:history_used_probe_path" if str(op.get("kind", "")).startswith("same_path") else "probe:history_rewrote_shared_file")
             continue
         if op.get("has_map"):
             stats.bump("probe:history_has_custom_map")
